@@ -14,14 +14,21 @@ TECH = ("contract-based deductive verification: sidecar contracts (pre/post, loo
 NOTE = ("Trusted: pyvc VC generator + sidecar contracts/ghost executor + z3/cvc5 + CPython ast + the "
         "induction principle for the spec-function lemmas; Python ints are mathematical (exact); "
         "assumed contract of allocate_snapshots (singledispatch closures) and CPython's generator "
-        "protocol. pyvc is itself checked on every thorough run by a CPython cross-check (concrete "
-        "execution of the iterators by the engine vs the real streams) and a 20-mutant self-test. "
+        "protocol; the shape of the operation lists handed to the Revolve-family iterator (validated on "
+        "every schedule of the boxes; an obligation at every construction site of revolve/disk_revolve/"
+        "periodic_disk_revolve). pyvc is itself checked on every run by a CPython cross-check (concrete "
+        "execution of the iterators by the engine vs the real streams) and a model check of the spec-"
+        "function axioms, and on every thorough run by a 42-mutant self-test. "
         "Bounded clauses hold only inside their stated box and are never counted as discharged.")
 
 VC_CLASSES = ("SingleMemory/SingleDisk/None, Multistage, TwoLevel (symbolic period) and Mixed iterators")
 REV = ("For the Revolve family (Revolve, DiskRevolve, PeriodicDiskRevolve, HRevolve) the stream is a "
-       "conversion of a recursively built operation sequence; its clauses are decided by the bounded "
-       "layer (reference executor on the real classes, all tuples of the box, 16 cost vectors).")
+       "conversion of a recursively built operation list: the iterator and _convert_action are verified "
+       "for every list of well-shaped operations on guard-passing paths, which discharges the local "
+       "clauses at every yield (forward/reverse start, one step of dependencies to WORK, Move source "
+       "present, counters, is_exhausted, empty store at EndReverse, well-formed actions); the clauses "
+       "that need the global structure of the list are decided by the bounded layer (reference executor "
+       "on the real classes, all tuples of the box, 16 cost vectors).")
 
 P = {}
 
@@ -69,18 +76,21 @@ add("C06", "other",
     "it). Stream steps == MIXOPT: bounded (all n<=60/200, all s, both storages); MIXOPT validated by "
     "Dijkstra search over executable sequences for n<=6/8.")
 add("C07", "other",
-    "Proved (VC), for all l, cm>=1 and all real costs: get_opt_0_table == OPT0 recurrence, "
-    "get_opt_inf_table == Disk-Revolve recurrence OPTINF, revolve() makespan == OPT0+(l+1)uf, "
-    "disk_revolve() makespan == OPTINF+(l+1)uf (so cost(DiskRevolve) <= cost(Revolve) at the sequence "
-    "level by the recurrence), argmin, revolver_parameters; Table class; the sequence-algebra accessors "
-    "(Operation.cost, Sequence.insert/insert_sequence/shift/remove_useless_wm) are assumed contracts "
-    "validated at run time; periodic_disk_revolve() makespan == periodic recurrence PDRC; cost-role "
-    "data-flow obligations: every cost-carrying argument (uf/ub/wvect/rvect...) reaches a parameter of "
-    "the same role at every call site of the package (this is the obligation the pinned tree's "
-    "uf/ub swap fails). Not under contract: get_hopt_table/hrevolve_* (extended reals, 3-level "
-    "tables) and the link stream cost == makespan through the iterator: "
-    "bounded - stream cost vs exact-rational recurrences for n<=16, 16 cost vectors incl. uf!=ub, "
-    "wd!=rd, zeros; recurrences validated by Dijkstra search for n<=4/5.")
+    "Proved (VC), for all l, unit counts >= 1 and all real costs: get_opt_0_table == OPT0 recurrence, "
+    "get_opt_inf_table == Disk-Revolve recurrence OPTINF, get_hopt_table == the two-level H-Revolve "
+    "recurrences HP0/HP1/H1 entry by entry (never-filled cells stay inf and are never used in "
+    "arithmetic); revolve() makespan == OPT0+(l+1)uf, disk_revolve() makespan == OPTINF+(l+1)uf (so "
+    "cost(DiskRevolve) <= cost(Revolve) at the sequence level by the recurrence), hrevolve_aux / "
+    "hrevolve_recurse / hrevolve() makespan == HP1 / H1 + (l+1)uf for free RAM transfers and "
+    "non-negative disk costs, periodic_disk_revolve() makespan == periodic recurrence PDRC; argmin, "
+    "revolver_parameters, Table class; cost-role data-flow obligations: every cost-carrying argument "
+    "(uf/ub/wvect/rvect...) reaches a parameter of the same role at every call site of the package (the "
+    "obligation the pinned tree's uf/ub swap fails). Every spec-function axiom is model-checked on every "
+    "run against the exact-arithmetic definitions of contracts/specs.py (bounded grid). Assumed, validated "
+    "at run time: the sequence-algebra accessors (Operation.cost, Sequence.insert/insert_sequence/shift/"
+    "remove_useless_wm). Not under contract: the link stream cost == makespan through the iterator and "
+    "termination of the recursive builders; bounded - stream cost vs exact-rational recurrences for "
+    "n<=16, 16 cost vectors incl. uf!=ub, wd!=rd, zeros; recurrences validated by Dijkstra search for n<=4/5.")
 add("C08", "other",
     "schedule.n == executor forward position, schedule.r == executor adjoint counter (reset at "
     "EndReverse iff another pass is permitted), max_n None or the true step count: discharged VCs at "
